@@ -7,7 +7,7 @@ ROOT = '/verif/seeded'
 CAUGHT = {
  'C01-a': (['C01', 'C05', 'C06'], ''),
  'C02-a': (['C02'], ''),
- 'C03-a': (['C03'], ''),
+ 'C03-a': (['C03'], 'original patch does not apply after the augmentation fix (c84216b); patch-ported-to-fixed-tree.diff carries the same change over'),
  'C04-a': (['C04'], ''),
  'C05-a': (['C05'], ''),
  'C06-a': (['C06', 'C05'], ''),
@@ -34,6 +34,14 @@ CAUGHT = {
  'C29-a': (['C29'], ''),
  'C30-a': (['C30'], 'first missed; caught after the C30 generator learned documents with per-line mixed line ends and multi-byte characters on many lines'),
  'C31-a': (['C31'], ''),
+ 'C22-a': (['C22'], ''),
+ 'C23-a': (['C23'], 'the first run crashed the harness (exit 101): the grammar-level minimiser did not re-index the inputs after removing a terminal; fixed, minimisation now runs under catch_unwind'),
+ 'C01-b': (['C01', 'C08'], ''),
+ 'C02-b': (['C02', 'C21'], ''),
+ 'C03-b': (['C03'], 'first missed by C03 and C18; caught after C01/C03 grammars learned lookahead variants of one terminal text (same text and kind, different lookahead expression)'),
+ 'C05-b': (['C05', 'C06', 'C01'], ''),
+ 'C13-b': (['C13'], 'first missed by C13 and C18; caught after the C13 model learned terminals with several occurrences that carry different scanner state lists (union semantics)'),
+ 'C19-b': (['C19', 'C17'], 'the inverse of fix b45f58c; first missed by C19 (caught by C17); caught by C19 after it learned grammars with a %skip list and skip-listed tokens in the inputs'),
  'C32-a': (['C32'], ''),
  'C33-a': (['C33'], ''),
  'C34-a': (['C34'], ''),
